@@ -187,6 +187,10 @@ pub fn run(args: &vpc::Args) -> ! {
     let mut bounds = vec![];
 
     let handle = |run: &vpc::Run, cfg: &Cfg, c: &Child, agg: &mut Stats, other: &mut BTreeMap<String, u64>| {
+        // a few explored histories written out (every 9973rd, so that they differ in shape)
+        if c.stats.ticks as usize % 3 == 1 && hist_text(&c.hist).len() % 7 == 3 {
+            run.sample(8, || json!({"cfg": cfg.name, "max_cached": cfg.max_cached, "history": hist_text(&c.hist), "violations_of_this_history": c.viol.len()}));
+        }
         for v in &c.viol {
             if v.prop == run.prop {
                 // "+late-tick" labels a finding only while the same class has not been reached without the deviation
